@@ -18,8 +18,16 @@ impl StrengthReduction {
         }
     }
 
+    /// Returns `true` if evaluating `expr` twice instead of once cannot be observed and its
+    /// value is a `Number`.
+    ///
+    /// An identifier does not qualify: converting its value to a number can call `valueOf`
+    /// (twice after the rewrite), reading it can call a getter of the global object or of a
+    /// `with` object, and for a `BigInt` value `x ** 2` must throw a `TypeError` while `x * x`
+    /// does not. The same holds for `BigInt` literals.
     fn is_side_effect_free(expr: &Expression) -> bool {
-        matches!(expr, Expression::Literal(_) | Expression::Identifier(_))
+        use boa_ast::expression::literal::LiteralKind;
+        matches!(expr, Expression::Literal(lit) if matches!(lit.kind(), LiteralKind::Int(_) | LiteralKind::Num(_)))
     }
 
     fn as_literal_int(expr: &Expression) -> Option<i32> {
